@@ -142,6 +142,72 @@ def walkAllDummy (nx : Nat → Nat) (isD : Nat → Bool) : Nat → Nat → Bool
 
 def tick (s : State) : State := { s with clock := s.clock + 1 }
 
+/-! Successor states of the individual branches (named so that the proofs can treat them one by one). -/
+
+def enqCallS (s : State) (t n : Nat) : State :=
+  tick { s with life := upd s.life n .priv, next := upd s.next n 0, isDummy := upd s.isDummy n false,
+                node := upd s.node t n, inDeq := upd s.inDeq t false, pc := upd s.pc t .eLd,
+                hi := max s.hi (n + 1) }
+
+/-- `cmpxchg(&tail->next, NULL, node)` succeeded: the linearisation point of enqueue -/
+def casNextOk (s : State) (t : Nat) : State :=
+  tick { s with uaf := s.uaf || !live s (s.tl t),
+                next := upd s.next (s.tl t) (s.node t), life := upd s.life (s.node t) .inq,
+                chain := s.chain ++ [s.node t],
+                enqd := if s.isDummy (s.node t) then s.enqd else s.enqd ++ [s.node t],
+                pc := upd s.pc t .eAdv }
+
+def casNextFail (s : State) (t : Nat) : State :=
+  tick { s with uaf := s.uaf || !live s (s.tl t), nx := upd s.nx t (s.next (s.tl t)), pc := upd s.pc t .eHelp }
+
+def advPc (s : State) (t : Nat) : Pc := if s.inDeq t then .dLdN2 else .idle
+
+def casTailAdvOk (s : State) (t : Nat) : State := tick { s with tail := s.node t, pc := upd s.pc t (advPc s t) }
+def casTailAdvFail (s : State) (t : Nat) : State := tick { s with pc := upd s.pc t (advPc s t) }
+def casTailHelpOk (s : State) (t : Nat) : State := tick { s with tail := s.nx t, pc := upd s.pc t .eLd }
+def casTailHelpFail (s : State) (t : Nat) : State := tick { s with pc := upd s.pc t .eLd }
+
+def afterNextPc (c : Cfg) : Pc := if c.helpTail then .dLdT else .dCas
+
+/-- the load `head->next` found NULL on a dummy: dequeue returns NULL (linearisation point of the empty answer) -/
+def ldNextNull (s : State) (t : Nat) : State :=
+  tick { s with uaf := s.uaf || !live s (s.hd t), nx := upd s.nx t (s.next (s.hd t)), pc := upd s.pc t .idle }
+
+/-- … found NULL on a user node: `enqueue_dummy` with the freshly allocated dummy `d` -/
+def ldNextAlloc (s : State) (t d : Nat) : State :=
+  tick { s with uaf := s.uaf || !live s (s.hd t), nx := upd s.nx t (s.next (s.hd t)),
+                life := upd s.life d .priv, next := upd s.next d 0, isDummy := upd s.isDummy d true,
+                node := upd s.node t d, inDeq := upd s.inDeq t true, pc := upd s.pc t .eLd,
+                hi := max s.hi (d + 1) }
+
+def ldNextGo (c : Cfg) (s : State) (t : Nat) : State :=
+  tick { s with uaf := s.uaf || !live s (s.hd t), nx := upd s.nx t (s.next (s.hd t)), pc := upd s.pc t (afterNextPc c) }
+
+def ldTailDS (s : State) (t : Nat) : State :=
+  tick { s with pc := upd s.pc t (if s.tail = s.hd t then .dHelpT else .dCas) }
+
+def casTailDOk (s : State) (t : Nat) : State := tick { s with tail := s.nx t, pc := upd s.pc t .dCas }
+def casTailDFail (s : State) (t : Nat) : State := tick { s with pc := upd s.pc t .dCas }
+
+/-- `cmpxchg(&q->head, head, next)` succeeded; `ret`: the removed node is a user node and is returned
+(linearisation point of a successful dequeue), otherwise it is a dummy handed to `queue_call_rcu` -/
+def casHeadOk (s : State) (t : Nat) (ret : Bool) : State :=
+  tick { s with head := s.nx t, chain := s.chain.tail, life := upd s.life (s.hd t) .removed,
+                removedAt := upd s.removedAt (s.hd t) s.clock,
+                pre := fun p u => if p = s.hd t then (s.cs u).isSome else s.pre p u,
+                deqd := if ret then s.deqd ++ [s.hd t] else s.deqd,
+                pc := upd s.pc t (if ret then .idle else .dLdH) }
+
+def casHeadFail (s : State) (t : Nat) : State := tick { s with pc := upd s.pc t .dLdH }
+
+def reclaimS (s : State) (p : Nat) : State :=
+  tick { s with life := upd s.life p .fresh, gen := upd s.gen p (s.gen p + 1) }
+
+/-- `cds_lfq_destroy_rcu` test -/
+def destroyOk (c : Cfg) (s : State) : Bool :=
+  if c.destroyWalk then walkAllDummy s.next s.isDummy s.chain.length s.head
+  else s.isDummy s.head && s.next s.head == 0
+
 /-- one step of thread `t`; `none` = not enabled -/
 def step (c : Cfg) (s : State) (t : Nat) : Label → Option (State × Out)
   | .lock =>
@@ -158,9 +224,7 @@ def step (c : Cfg) (s : State) (t : Nat) : Label → Option (State × Out)
     | none => none
   | .enqCall n =>
     if s.pc t = .idle ∧ (s.cs t).isSome ∧ s.dead = false ∧ n ≠ 0 ∧ s.life n = .fresh then
-      some (tick { s with life := upd s.life n .priv, next := upd s.next n 0, isDummy := upd s.isDummy n false,
-                          node := upd s.node t n, inDeq := upd s.inDeq t false, pc := upd s.pc t .eLd,
-                          hi := max s.hi (n + 1) }, .unit)
+      some (enqCallS s t n, .unit)
     else none
   | .ldTail =>
     if s.pc t = .eLd then
@@ -168,28 +232,15 @@ def step (c : Cfg) (s : State) (t : Nat) : Label → Option (State × Out)
     else none
   | .casNext =>
     if s.pc t = .eCas then
-      let a := s.tl t
-      let s := { s with uaf := s.uaf || !live s a }
-      if s.next a = 0 then
-        some (tick { s with next := upd s.next a (s.node t), life := upd s.life (s.node t) .inq,
-                            chain := s.chain ++ [s.node t],
-                            enqd := if s.isDummy (s.node t) then s.enqd else s.enqd ++ [s.node t],
-                            pc := upd s.pc t .eAdv }, .unit)
-      else
-        some (tick { s with nx := upd s.nx t (s.next a), pc := upd s.pc t .eHelp }, .unit)
+      if s.next (s.tl t) = 0 then some (casNextOk s t, .unit) else some (casNextFail s t, .unit)
     else none
   | .casTailAdv =>
     if s.pc t = .eAdv then
-      let pc' := upd s.pc t (if s.inDeq t then .dLdN2 else .idle)
-      if s.tail = s.tl t then
-        some (tick { s with tail := s.node t, pc := pc' }, .unit)
-      else some (tick { s with pc := pc' }, .unit)
+      if s.tail = s.tl t then some (casTailAdvOk s t, .unit) else some (casTailAdvFail s t, .unit)
     else none
   | .casTailHelp =>
     if s.pc t = .eHelp then
-      if s.tail = s.tl t then
-        some (tick { s with tail := s.nx t, pc := upd s.pc t .eLd }, .unit)
-      else some (tick { s with pc := upd s.pc t .eLd }, .unit)
+      if s.tail = s.tl t then some (casTailHelpOk s t, .unit) else some (casTailHelpFail s t, .unit)
     else none
   | .deqCall =>
     if s.pc t = .idle ∧ (s.cs t).isSome ∧ s.dead = false then
@@ -201,56 +252,32 @@ def step (c : Cfg) (s : State) (t : Nat) : Label → Option (State × Out)
     else none
   | .ldNext d =>
     if s.pc t = .dLdN then
-      let a := s.hd t
-      let s := { s with uaf := s.uaf || !live s a, nx := upd s.nx t (s.next a) }
-      if s.next a = 0 then
-        if s.isDummy a then
-          some (tick { s with pc := upd s.pc t .idle }, .null)
-        else if d ≠ 0 ∧ s.life d = .fresh then
-          some (tick { s with life := upd s.life d .priv, next := upd s.next d 0, isDummy := upd s.isDummy d true,
-                              node := upd s.node t d, inDeq := upd s.inDeq t true, pc := upd s.pc t .eLd,
-                              hi := max s.hi (d + 1) }, .unit)
+      if s.next (s.hd t) = 0 then
+        if s.isDummy (s.hd t) then some (ldNextNull s t, .null)
+        else if d ≠ 0 ∧ s.life d = .fresh then some (ldNextAlloc s t d, .unit)
         else none
-      else some (tick { s with pc := upd s.pc t (if c.helpTail then .dLdT else .dCas) }, .unit)
+      else some (ldNextGo c s t, .unit)
     else none
   | .ldNext2 =>
-    if s.pc t = .dLdN2 then
-      let a := s.hd t
-      some (tick { s with uaf := s.uaf || !live s a, nx := upd s.nx t (s.next a),
-                          pc := upd s.pc t (if c.helpTail then .dLdT else .dCas) }, .unit)
-    else none
+    if s.pc t = .dLdN2 then some (ldNextGo c s t, .unit) else none
   | .ldTailD =>
-    if s.pc t = .dLdT then
-      some (tick { s with pc := upd s.pc t (if s.tail = s.hd t then .dHelpT else .dCas) }, .unit)
-    else none
+    if s.pc t = .dLdT then some (ldTailDS s t, .unit) else none
   | .casTailD =>
     if s.pc t = .dHelpT then
-      if s.tail = s.hd t then
-        some (tick { s with tail := s.nx t, pc := upd s.pc t .dCas }, .unit)
-      else some (tick { s with pc := upd s.pc t .dCas }, .unit)
+      if s.tail = s.hd t then some (casTailDOk s t, .unit) else some (casTailDFail s t, .unit)
     else none
   | .casHead =>
     if s.pc t = .dCas then
-      let a := s.hd t
-      if s.head = a then
-        let s' := { s with head := s.nx t, chain := s.chain.tail, life := upd s.life a .removed,
-                           removedAt := upd s.removedAt a s.clock,
-                           pre := fun p u => if p = a then (s.cs u).isSome else s.pre p u }
-        if s.isDummy a then
-          some (tick { s' with pc := upd s.pc t .dLdH }, .unit)      -- rcu_free_dummy(head); continue
-        else
-          some (tick { s' with deqd := s.deqd ++ [a], pc := upd s.pc t .idle }, .node a)
-      else some (tick { s with pc := upd s.pc t .dLdH }, .unit)
+      if s.head = s.hd t then
+        if s.isDummy (s.hd t) then some (casHeadOk s t false, .unit)      -- rcu_free_dummy(head); continue
+        else some (casHeadOk s t true, .node (s.hd t))
+      else some (casHeadFail s t, .unit)
     else none
   | .reclaim p =>
-    if s.life p = .removed ∧ gpElapsed c s p then
-      some (tick { s with life := upd s.life p .fresh, gen := upd s.gen p (s.gen p + 1) }, .unit)
-    else none
+    if s.life p = .removed ∧ gpElapsed c s p then some (reclaimS s p, .unit) else none
   | .destroy =>
     if s.pc t = .idle ∧ s.dead = false ∧ quiescent c s then
-      if (if c.destroyWalk then walkAllDummy s.next s.isDummy s.chain.length s.head = true
-          else s.isDummy s.head ∧ s.next s.head = 0) then
-        some (tick { s with dead := true }, .destroyed true)
+      if destroyOk c s then some (tick { s with dead := true }, .destroyed true)
       else some (tick s, .destroyed false)
     else none
 
